@@ -146,8 +146,18 @@ def backend_name(b):
     return b['type']
 
 
+def _canon(o):
+    if isinstance(o, (set, frozenset)):
+        return sorted(_canon(x) for x in o)
+    if isinstance(o, bytes):
+        return 'b:' + hashlib.sha1(o).hexdigest()[:12]
+    return repr(o)
+
+
 def digest_of(*parts):
+    """order-insensitive for dict keys (a replay file is JSON with sorted keys)"""
+    import json
     h = hashlib.sha1()
     for p in parts:
-        h.update(repr(p).encode())
+        h.update(json.dumps(p, sort_keys=True, default=_canon).encode())
     return h.hexdigest()[:16]
